@@ -186,7 +186,8 @@ impl Gen {
 
   fn comment(&self, rng: &mut Rng, out: &mut String, indent: &str, doc_ok: bool) {
     if rng.below(100) < self.comment_rate {
-      let text = rng.pick(COMMENT_TEXT);
+      let unique = format!("a comment that occurs only here {}", rng.below(1_000_000));
+      let text: &str = if rng.chance(1, 2) { *rng.pick(COMMENT_TEXT) } else { &unique };
       match rng.below(if doc_ok { 3 } else { 2 }) {
         0 => out.push_str(&format!("{indent}// {text}\n")),
         1 => out.push_str(&format!("{indent}/* {text} */\n")),
@@ -552,7 +553,26 @@ impl Gen {
         }
         4 => {
           let e = self.gen_expr(rng, &Ty::Str, 1, scope, visible);
-          s.push_str(&format!("    Process.println({e});\n"));
+          match rng.below(4) {
+            0 => {
+              // tuple expression and tuple pattern (std.tuples may or may not be present)
+              let a = self.fresh_lower(rng, &taken);
+              let b = self.fresh_lower(rng, &[taken.clone(), vec![a.clone()]].concat());
+              let i = self.gen_expr(rng, &Ty::Int, 1, scope, visible);
+              s.push_str(&format!("    let ({a}, {b}) = ({i}, {e});\n"));
+              scope.locals.push((a, Ty::Int));
+              scope.locals.push((b, Ty::Str));
+            }
+            1 => {
+              // else-if chain
+              let c1 = self.gen_expr(rng, &Ty::Bool, 1, scope, visible);
+              let c2 = self.gen_expr(rng, &Ty::Bool, 1, scope, visible);
+              let e2 = self.gen_expr(rng, &Ty::Str, 1, scope, visible);
+              let e3 = self.gen_expr(rng, &Ty::Str, 1, scope, visible);
+              s.push_str(&format!("    Process.println(if {c1} {{ {e} }} else if {c2} {{ {e2} }} else {{ {e3} }});\n"));
+            }
+            _ => s.push_str(&format!("    Process.println({e});\n")),
+          }
         }
         _ => {
           // lambda bound to a local, then applied
@@ -683,7 +703,9 @@ impl Gen {
         }
       },
       Ty::Str => match rng.below(if depth > 0 { 5 } else { 2 }) {
-        0 | 1 => format!("\"{}\"", rng.pick(STRING_LITS)),
+        0 => format!("\"{}\"", rng.pick(STRING_LITS)),
+        // a literal that occurs nowhere else in the project
+        1 => format!("\"a string literal that is unique {}\"", rng.below(1_000_000)),
         2 => {
           let a = self.gen_expr(rng, &Ty::Int, depth - 1, scope, visible);
           format!("Str.fromInt({a})")
